@@ -631,6 +631,10 @@ Definition req_wf_ok (c : req_case) : bool :=
 Definition req_oracle_ok (c : req_case) : bool :=
   let '(s, p, raw, seen) := c in ostr_eqb (spec_decode p raw) seen.
 
+(* compact form used for the cases where expat recovered exactly s *)
+Definition req_case3 := (str * position * str)%type.
+Definition expand3 (c : req_case3) : req_case := let '(s, p, raw) := c in (s, p, raw, Some s).
+
 (* --- reply: pieces written by the independent writer ---------------- *)
 (* pieces, in attribute position?, quote, raw as written, SAX chunks an
    independent expat run delivered, value suds handed back (None = no value) *)
